@@ -79,6 +79,8 @@ structure St where
   alls : List (Option (List Name))     -- `Module.all`, by module id
   cinfo : List (Nat × ClsInfo)
   bad : Bool
+  pending : List Nat := []             -- the order `System.unprocessed_modules` was filled in (module ids; never shortened:
+                                       -- "still in the list" is `getPs = .unprocessed`)
   deriving Repr, Inhabited
 
 def getPs (s : St) (m : Nat) : PState := s.ps.getD m .processed
@@ -219,11 +221,21 @@ def notModuleLevel (s : St) (ob : Nat) : Bool :=
       | some par => isModuleObj s.reg par
       | none => false)
 
-/-- since fix ec6815d: a MODULE is processed before it is moved (`getProcessedModule(ob.fullName())`) -/
+/-- since fix ec6815d: a MODULE is processed before it is moved (`getProcessedModule(ob.fullName())`); since fix 2ad6fa5
+so is every still-unprocessed module BELOW it: `for sub in [m for m in unprocessed_modules if (m.fullName() + '.').startswith(
+ob.fullName() + '.')]: if sub.state is UNPROCESSED: processModule(sub)` — the list is taken once, in the order of
+`unprocessed_modules` -/
 def processBeforeMove (pm : St → Nat → St) (s : St) (ob : Nat) : St :=
   if isModuleObj s.reg ob then
     match path s.reg ob with
-    | some p => (getProcessedModule pm s p).1
+    | some p =>
+      let s1 := (getProcessedModule pm s p).1
+      let subs := s1.pending.filter fun m =>
+        getPs s1 m == .unprocessed &&
+          (match path s1.reg ob, path s1.reg m with
+            | some po, some pm' => po.isPrefixOf pm'
+            | _, _ => false)
+      subs.foldl (fun st m => if getPs st m == .unprocessed then pm st m else st) s1
     | none => { s with bad := true }
   else s
 
@@ -400,14 +412,14 @@ def addModules : List Module → St → St
         | .ok r => addModules rest { s with reg := r, bad := s.bad || dup }
 
 def initSt (proj : Project) : St :=
-  addModules proj ⟨Registry.init, List.replicate proj.length .unprocessed, List.replicate proj.length none, [], false⟩
+  addModules proj ⟨Registry.init, List.replicate proj.length .unprocessed, List.replicate proj.length none, [], false, []⟩
 
 /-- `System.process()`: `while unprocessed_modules: processModule(next(iter(unprocessed_modules)))`
 with `unprocessed_modules` initially in `order` — the first still-unprocessed module each time -/
 def process (proj : Project) (order : List Nat) (s : St) : St :=
   order.foldl (fun s m => if getPs s m = .unprocessed then processModule proj (proj.length + 1) s m else s) s
 
-def run (proj : Project) (order : List Nat) : St := process proj order (initSt proj)
+def run (proj : Project) (order : List Nat) : St := process proj order { initSt proj with pending := order }
 
 /-! ### post-processing: final bases and MRO -/
 
